@@ -103,14 +103,14 @@ G_POOL = [(RO.c03_dormant, None), (RO.c10_fetch, None), (RO.c10_thread, None), (
 # of the seeded changes were reported by a neighbouring property's check only, until the target's check ran the same rules).
 G_CORE = [(RP.tok_exec, None), (RP.tok_leak, None), (RP.tok_resched, None), (RP.tok_pending, None), (RP.tok_requeue, None), (RP.pa_rules, None),
           (RP.park_wake, None), (RP.tr_dead, None), (RP.tr_roles, None), (RP.tr_immediate, None), (RP.tr_sibling, None), (RP.tr_defer, None), (RP.tr_base, None),
-          (RQ.qd_queue, None), (RQ.qd_schedule, None), (RQ.qd_wake_blocked, None), (RQ.qd_run, None), (RQ.qd_once, None),
+          (RQ.qd_queue, None), (RQ.qd_single_store, None), (RQ.qd_schedule, None), (RQ.qd_wake_blocked, None), (RQ.qd_run, None), (RQ.qd_once, None),
           (RG.tok_guard, None), (RG.aq_drop, None), (RG.c15_reap, None), (RG.c15_refuse, None),
           (RL.try_rule, None), (RL.lo, None), (RL.bl, None),
           (RO.c03_dormant, None), (RO.c10_fetch, None), (RO.c10_thread, None), (RO.c10_spawn, None), (RO.c02_append, None), (RO.c06_drain, None),
           (RO.c07_own, None), (RO.c07_signal, None), (RO.c08, None, ['result-after-scheduler', 'polls-with-callers-context', 'drop-order']),
           (RO.free_delegates, None), (RO.rs_strength, None, ['SchedulerCore']), (RW.lw_owner, None), (RU.ua_leak, None), (RM.must, None), (RWP.wp, None),
           (RE.eo, None, ['^SchedulerCore::', '^<SchedulerCore::', '^JobQueue::', '^<JobQueue::', '^Scheduler::', '^<Scheduler::', '^<WakeQueue', '^<WakeThread', '^<SchedulerFuture', '^SchedulerFuture', '^<ActiveQueue', '^<UnsafeJob', '^FutureJob::', '^SchedulerThread::'])]
-G_ORDER = [(RO.c02_append, None), (RO.free_delegates, None, ['|delegates']), (RQ.qd_queue, None), (RP.tr_immediate, None), (RP.tr_sibling, None, ['sync']), (RP.tok_requeue, None),
+G_ORDER = [(RO.c02_append, None), (RO.free_delegates, None, ['|delegates']), (RQ.qd_queue, None), (RQ.qd_single_store, None), (RP.tr_immediate, None), (RP.tr_sibling, None, ['sync']), (RP.tok_requeue, None),
            (RP.pa_rules, {'PA-excl', 'PA'}), (RP.tok_exec, None)]
 
 prop('C01', COMMON +
